@@ -307,9 +307,9 @@ def families(opts):
             # the copy can be read as an implicit equation for the initialised variable it mentions (initial value = initial guess):
             # CellML has no way to tell a constant from a guess, so a valid NLA/DAE reading is accepted as well
             want = want | {'nla', 'dae'}
-        if v == 'drop_eq' and kinds[i] == 'G':
+        if v == 'drop_eq' and kinds[i] in 'GC':
             want = {'underconstrained', 'algebraic', 'ode', 'nla', 'dae'}  # an initialised variable without its equation is a constant
-        if v == 'dup_eq' and kinds[i] in 'NG':
+        if v == 'dup_eq' and kinds[i] in 'NGC':
             want = {'overconstrained', 'nla', 'dae', 'unsuitably_constrained'}  # two copies of one implicit equation: documented nowhere; not judged strictly
         ctx.outcome('%s:%s' % (v, ty))
         if ty not in want:
